@@ -130,6 +130,7 @@ func runC02(rt *rapid.T, st *stats.Collector) {
 	N := min(clientRev, serverRev)
 	comp := drawComp(rt)
 	e := newEnv(serverRev)
+	e.warm = rapid.SampledFrom(warmKinds).Draw(rt, "earlier-exchange")
 	defer e.conn.ForceClose()
 
 	opt := baseOptions(clientRev, comp)
@@ -388,6 +389,7 @@ func runC02(rt *rapid.T, st *stats.Collector) {
 	})
 	st.Label("comp:" + comp.Name)
 	st.Label(fmt.Sprintf("N:%d", N))
+	st.Label("earlier-exchange:" + e.warm)
 	if streamed {
 		st.Label(fmt.Sprintf("streamed-input-blocks:%d", len(rounds)))
 	}
